@@ -67,8 +67,8 @@ def _gen_relay(rng, tier):
                          rng.choice([{}, {}, {"a": 100}, {"b": 7}]), rng.randrange(1000)])
     posts = []
     for _ in range(rng.randint(1, 5)):
-        posts.append([rng.choice(["relay", "relay", "boolean", "boolean", "relay_async"]), rng.choice(["r0", "r1"]),
-                      {"a": rng.randint(0, 3), "b": rng.randint(0, 3)}])
+        posts.append([rng.choice(["relay", "relay", "boolean", "boolean", "relay_async", "relay_empty", "boolean_empty"]),
+                      rng.choice(["r0", "r1"]), {"a": rng.randint(0, 3), "b": rng.randint(0, 3)}])
     return {"kind": "relay", "handlers": handlers, "posts": posts}
 
 
@@ -310,7 +310,9 @@ def _run_relay(case):
 
         def make_handler(hid, ret, salt):
             def h(**kwargs):
-                rid, pid = kwargs.get("_rid"), kwargs.get("_pid")
+                rid = kwargs.get("_rid")
+                # posts without any arguments cannot carry a _pid: they are made one at a time
+                pid = kwargs["_pid"] if "_pid" in kwargs else st.get("cur_empty")
                 chk.on_enter(rid, pid, kwargs)
                 if ret == "dict":
                     res = {"a": kwargs.get("a", 0) + 1 + salt % 3, "h%d" % hid: salt}
@@ -360,6 +362,19 @@ def _run_relay(case):
                 pid = st["pid"]
                 kw = dict(kw)
                 kw["_pid"] = pid
+                if type_ in ("relay_empty", "boolean_empty"):
+                    # posted with no arguments at all
+                    st["cur_empty"] = pid
+                    obs["empty_posts"] = obs.get("empty_posts", 0) + 1
+                    if type_ == "relay_empty":
+                        chk.on_post(pid, event, {}, "relay", True)
+                        ev.post_relay(event, make_cb(pid, "relay"))
+                    else:
+                        chk.on_post(pid, event, {}, "boolean", True)
+                        ev.post_boolean(event, make_cb(pid, "boolean"))
+                    vm.advance(0.01)
+                    chk.drain()
+                    continue
                 if type_ == "relay_async":
                     chk.on_post(pid, event, kw, "relay", True)
                     fut = ev.post_relay_async(event, **kw)
